@@ -361,6 +361,200 @@ def init (c : Cfg) : State := ⟨[], [], List.replicate c.banks (emptyBank c), [
 
 def run (c : Cfg) (ops : List Op) : State := ops.foldl (step c) (init c)
 
+/-! ## the repaired component for every pipeline width
+
+Second `fix:` commit: an Akita pipeline with more than one lane does not keep the entry order (a full post-pipeline
+buffer stalls the lanes, they are then served by lane number), so `finalizeSingle` no longer takes whatever is at the head
+of the post-pipeline buffer. Each bank keeps `inOrder` (entry order into the pipeline); `finalizeSingle` works on
+`inOrder[0]` only — a younger request found at the head of the buffer is popped and *set aside* (`setAside`,
+`numSetAside`); while something is set aside the bank accepts nothing (`canAccept`). With one lane nothing is ever set
+aside and the component behaves exactly as the model above (`MgpuProofs/C17Ref.lean`: `w1_refines`).
+The driver answers every case line from this model (`handle`); for width 1 it also runs the model above and compares. -/
+
+structure WBank where
+  lanes : List Lane
+  post : List Item
+  lastRow : Option Nat
+  dq : List (Item × Nat)
+  /-- `bank.inOrder` (the immutable part of the items): in the pipeline, the post-pipeline buffer or set aside -/
+  order : List Req
+  /-- the items with `setAside = true`, in the order they were set aside; `numSetAside` = its length -/
+  early : List Item
+deriving DecidableEq, Repr
+
+def WBank.base (b : WBank) : Bank := ⟨b.lanes, b.post, b.lastRow, b.dq⟩
+
+structure WState where
+  topIn : List Req
+  pending : List Req
+  banks : List WBank
+  log : List Req
+  outBuf : List Rsp
+  arrived : List Req
+  resp : List Rsp
+deriving Repr
+
+def WState.base (s : WState) : State := ⟨s.topIn, s.pending, s.banks.map WBank.base, s.log, s.outBuf, s.arrived, s.resp⟩
+
+/-- `bank.canAccept()` then `bank.accept(item)`; `none` = `canAccept()` is false -/
+def accW (c : Cfg) (it : Item) (b : WBank) : Option WBank :=
+  if b.early.isEmpty then
+    match acceptLanes (it, c.lat - 1) b.lanes with
+    | some lanes' => some { b with lanes := lanes', order := b.order ++ [it.req] }
+    | none => none
+  else none
+
+def tickBankPipeW (c : Cfg) (b : WBank) : WBank :=
+  let r := tickLanes c b.post b.lanes
+  { b with post := r.1, lanes := r.2 }
+
+def delayGoW (c : Cfg) : List (Item × Nat) → WBank → List (Item × Nat) → WBank × List (Item × Nat)
+  | [], b, rem => (b, rem)
+  | (it, n) :: rest, b, rem =>
+    if n - 1 = 0 ∧ rem.isEmpty then
+      match accW c it b with
+      | some b' => delayGoW c rest b' rem
+      | none => delayGoW c rest b (rem ++ [(it, n - 1)])
+    else delayGoW c rest b (rem ++ [(it, n - 1)])
+
+def tickBankDelayW (c : Cfg) (b : WBank) : WBank :=
+  let r := delayGoW c b.dq b []
+  { r.1 with dq := r.2 }
+
+def dispatchBankW (c : Cfg) (r : Req) (b : WBank) : Option WBank :=
+  if c.row > 0 ∧ c.miss > 0 then
+    let row := rowOf c r.addr
+    if b.lastRow = some row then
+      if b.dq.isEmpty then
+        match accW c (fresh r) b with
+        | some b' => some { b' with lastRow := some row }
+        | none => some { b with dq := b.dq ++ [(fresh r, 0)], lastRow := some row }
+      else some { b with dq := b.dq ++ [(fresh r, 0)], lastRow := some row }
+    else some { b with dq := b.dq ++ [(fresh r, c.miss)], lastRow := some row }
+  else accW c (fresh r) b
+
+def dispatchOneW (c : Cfg) (st : List WBank × List Req) (r : Req) : List WBank × List Req :=
+  match st.1[bankOf c r.addr]? with
+  | none => (st.1, st.2 ++ [r])
+  | some b =>
+    match dispatchBankW c r b with
+    | some b' => (st.1.set (bankOf c r.addr) b', st.2)
+    | none => (st.1, st.2 ++ [r])
+
+def dispatchW (c : Cfg) (s : WState) : WState :=
+  let r := s.pending.foldl (dispatchOneW c) (s.banks, [])
+  { s with banks := r.1, pending := r.2 }
+
+structure FinW where
+  bank : WBank
+  log : List Req
+  out : List Rsp
+  resp : List Rsp
+  /-- `some kind` = panic (`cap`: storage refuses the footprint, `bounds`: mask shorter than the data) -/
+  fault : Option String
+  /-- some `finalizeSingle` returned true (a response was sent or a request was set aside) -/
+  prog : Bool
+
+/-- why the first visit of `finalizeRead/Write` panics on this item, if it does (capacity before mask index) -/
+def faultOf (c : Cfg) (it : Item) : String := if capFault c it then "cap" else "bounds"
+
+/-- the `for { finalizeSingle }` loop of one bank; one unit of fuel per call of `finalizeSingle` that returns true
+(`order.length + post.length + 1` is enough: every such call shortens `inOrder` or the post-pipeline buffer) -/
+def finalizeBankW (c : Cfg) : Nat → WBank → List Req → List Rsp → List Rsp → Bool → FinW
+  | 0, b, log, out, resp, pg => ⟨b, log, out, resp, none, pg⟩
+  | fuel + 1, b, log, out, resp, pg =>
+    match b.order with
+    | [] => ⟨b, log, out, resp, none, pg⟩
+    | o :: os =>
+      match b.early.find? (fun it => decide (it.req = o)) with
+      | some it =>
+        -- the oldest request was set aside earlier: finalize it from there
+        if capFault c it then ⟨b, log, out, resp, some "cap", pg⟩ else
+        match commit it log with
+        | none => ⟨b, log, out, resp, some "bounds", pg⟩
+        | some (it', log') =>
+          if out.length < c.top then
+            finalizeBankW c fuel { b with order := os, early := b.early.filter (fun e => !decide (e.req = o)) }
+              log' (out ++ [rspOf it']) (resp ++ [rspOf it']) true
+          else ⟨{ b with early := b.early.map (fun e => if e.req = o then it' else e) }, log', out, resp, none, pg⟩
+      | none =>
+        match b.post with
+        | [] => ⟨b, log, out, resp, none, pg⟩
+        | h :: t =>
+          if h.req = o then
+            if capFault c h then ⟨b, log, out, resp, some "cap", pg⟩ else
+            match commit h log with
+            | none => ⟨b, log, out, resp, some "bounds", pg⟩
+            | some (h', log') =>
+              if out.length < c.top then
+                finalizeBankW c fuel { b with order := os, post := t } log' (out ++ [rspOf h']) (resp ++ [rspOf h']) true
+              else ⟨{ b with post := h' :: t }, log', out, resp, none, pg⟩
+          else
+            -- a younger request left the pipeline first: pop it and set it aside
+            finalizeBankW c fuel { b with post := t, early := b.early ++ [h] } log out resp true
+
+structure FinS where
+  st : WState
+  fault : Option String
+  prog : Bool
+
+def finalizeAtW (c : Cfg) (s : WState) (k : Nat) (pg : Bool) : FinS :=
+  match s.banks[k]? with
+  | none => ⟨s, none, pg⟩
+  | some b =>
+    let f := finalizeBankW c (b.order.length + b.post.length + 1) b s.log s.outBuf s.resp pg
+    ⟨{ s with banks := s.banks.set k f.bank, log := f.log, outBuf := f.out, resp := f.resp }, f.fault, f.prog⟩
+
+def finalizeFromW (c : Cfg) : List Nat → WState → Bool → FinS
+  | [], s, pg => ⟨s, none, pg⟩
+  | k :: ks, s, pg =>
+    let r := finalizeAtW c s k pg
+    if r.fault.isSome then r else finalizeFromW c ks r.st r.prog
+
+def finalizeW (c : Cfg) (s : WState) : FinS := finalizeFromW c (List.range s.banks.length) s false
+
+def tickPipesW (c : Cfg) (s : WState) : WState := { s with banks := s.banks.map (tickBankPipeW c) }
+def tickDelaysW (c : Cfg) (s : WState) : WState := { s with banks := s.banks.map (tickBankDelayW c) }
+def drainTopW (s : WState) : WState := { s with pending := s.pending ++ s.topIn, topIn := [] }
+
+def tickW (c : Cfg) (s : WState) : WState :=
+  let f := finalizeW c s
+  if f.fault.isSome then f.st else
+  let s3 := tickDelaysW c (tickPipesW c f.st)
+  if convFault c s3.pending then s3 else drainTopW (dispatchW c s3)
+
+/-- `madeProgress` and the panic kind of the same tick -/
+def tickFlagsW (c : Cfg) (s : WState) : Bool × Option String :=
+  let f := finalizeW c s
+  if f.fault.isSome then (false, f.fault) else
+  let s1 := f.st
+  let s2 := tickPipesW c s1
+  let s3 := tickDelaysW c s2
+  if convFault c s3.pending then (false, some "conv") else
+  let s4 := dispatchW c s3
+  let p2 := decide (s2.banks ≠ s1.banks)
+  let p3 := s2.banks.any fun b => !b.dq.isEmpty
+  let p4 := decide (s4.pending.length < s3.pending.length)
+  let p5 := !s4.topIn.isEmpty
+  (f.prog || p2 || p3 || p4 || p5, none)
+
+def deliverW (c : Cfg) (s : WState) (kind : Kind) (addr len : Nat) (data : List Nat) (mask : Option (List Bool)) : WState :=
+  if s.topIn.length < c.top then
+    let r : Req := ⟨s.arrived.length, kind, addr, len, data, mask⟩
+    { s with topIn := s.topIn ++ [r], arrived := s.arrived ++ [r] }
+  else s
+
+def stepW (c : Cfg) (s : WState) : Op → WState
+  | .deliver k a l d m => deliverW c s k a l d m
+  | .tick => tickW c s
+  | .out k => { s with outBuf := s.outBuf.drop k }
+
+def emptyBankW (c : Cfg) : WBank := ⟨List.replicate c.width (List.replicate c.depth none), [], none, [], [], []⟩
+
+def initW (c : Cfg) : WState := ⟨[], [], List.replicate c.banks (emptyBankW c), [], [], [], []⟩
+
+def runW (c : Cfg) (ops : List Op) : WState := ops.foldl (stepW c) (initW c)
+
 /-! ## line protocol -/
 
 def showRsp (r : Rsp) : String := match r.req.kind with
@@ -382,12 +576,33 @@ def quiesce (c : Cfg) : Nat → State → Nat → List Rsp → State × Nat × L
     if !fl.1 && d.isEmpty then (s'', n + 1, acc, false)
     else quiesce c fuel s'' (n + 1) (acc ++ d)
 
-def dump (c : Cfg) (s : State) : String :=
-  if s.arrived.any (fun r => let lo := r.addr - min r.addr 4; capErr c.cap lo (r.addr + r.size + 4 - lo)) then "S=err" else
-  let bytes := s.arrived.flatMap fun r =>
+def dumpAL (c : Cfg) (arrived log : List Req) : String :=
+  if arrived.any (fun r => let lo := r.addr - min r.addr 4; capErr c.cap lo (r.addr + r.size + 4 - lo)) then "S=err" else
+  let bytes := arrived.flatMap fun r =>
     let lo := r.addr - min r.addr 4
-    readRange s.log lo (r.addr + r.size + 4 - lo)
+    readRange log lo (r.addr + r.size + 4 - lo)
   s!"S={toHex (fnv bytes)}"
+
+def dump (c : Cfg) (s : State) : String := dumpAL c s.arrived s.log
+
+/-- op `i`: the entry-order bookkeeping of every bank (`bank.inOrder` with the `setAside` (`*`) and `committed` (`!`)
+flags), banks separated by `|` -/
+def showOrder (order : List Req) (items early : List Item) : String :=
+  joinWith "," (order.map fun o =>
+    s!"{o.id}" ++ (if early.any (fun e => decide (e.req = o)) then "*" else "") ++
+      (if items.any (fun e => decide (e.req = o) && e.committed) then "!" else ""))
+
+def laneItemsM (l : Lane) : List Item := l.filterMap (fun s => s.map (·.1))
+
+/-- one lane: `inOrder` is the post-pipeline buffer followed by the lane, nothing is set aside -/
+def showOrders (s : State) : String :=
+  "I[" ++ joinWith "|" (s.banks.map fun b =>
+    let items := b.post ++ b.lanes.flatMap laneItemsM
+    showOrder (items.map (·.req)) items []) ++ "]"
+
+def showOrdersW (s : WState) : String :=
+  "I[" ++ joinWith "|" (s.banks.map fun b =>
+    showOrder b.order (b.post ++ b.lanes.flatMap laneItemsM ++ b.early) b.early) ++ "]"
 
 def runOps (c : Cfg) : List String → State → List String → List String
   | [], s, acc => (dump c s :: acc).reverse
@@ -413,9 +628,55 @@ def runOps (c : Cfg) : List String → State → List String → List String
       | some k => runOps c rest { s with outBuf := s.outBuf.drop k }
           (("o[" ++ joinWith "," ((s.outBuf.take k).map showRsp) ++ "]") :: acc)
       | none => ["bad"]
+    | ["i"] => runOps c rest s (showOrders s :: acc)
     | ["q"] =>
       let r := quiesce c 2000 s 0 []
       runOps c rest r.1 ((s!"q{r.2.1}[" ++ joinWith "," (r.2.2.1.map showRsp) ++ "]" ++ (if r.2.2.2 then "!" else "")) :: acc)
+    | _ => ["bad"]
+
+/-! the same protocol on the model of the repaired component -/
+
+def quiesceW (c : Cfg) : Nat → WState → Nat → List Rsp → WState × Nat × List Rsp × Bool
+  | 0, s, n, acc => (s, n, acc, false)
+  | fuel + 1, s, n, acc =>
+    let fl := tickFlagsW c s
+    let s' := tickW c s
+    if fl.2.isSome then (s', n + 1, acc, true) else
+    let d := s'.outBuf
+    let s'' := { s' with outBuf := [] }
+    if !fl.1 && d.isEmpty then (s'', n + 1, acc, false)
+    else quiesceW c fuel s'' (n + 1) (acc ++ d)
+
+def runOpsW (c : Cfg) : List String → WState → List String → List String
+  | [], s, acc => (dumpAL c s.arrived s.log :: acc).reverse
+  | o :: rest, s, acc =>
+    match words o with
+    | ["w", a, d, m] =>
+      match hexNat? a, (if d = "-" then some [] else hexBytes? d) with
+      | some a, some d =>
+        let s' := deliverW c s .wr a d.length d (parseMask m)
+        runOpsW c rest s' ((if s'.arrived.length = s.arrived.length then "f" else "a") :: acc)
+      | _, _ => ["bad"]
+    | ["r", a, n] =>
+      match hexNat? a, n.toNat? with
+      | some a, some n =>
+        let s' := deliverW c s .rd a n [] none
+        runOpsW c rest s' ((if s'.arrived.length = s.arrived.length then "f" else "a") :: acc)
+      | _, _ => ["bad"]
+    | ["t"] =>
+      let fl := tickFlagsW c s
+      runOpsW c rest (tickW c s) ((match fl.2 with
+        | some k => "fault:" ++ k
+        | none => if fl.1 then "t1" else "t0") :: acc)
+    | ["o", k] =>
+      match k.toNat? with
+      | some k => runOpsW c rest { s with outBuf := s.outBuf.drop k }
+          (("o[" ++ joinWith "," ((s.outBuf.take k).map showRsp) ++ "]") :: acc)
+      | none => ["bad"]
+    | ["i"] => runOpsW c rest s (showOrdersW s :: acc)
+    | ["q"] =>
+      let r := quiesceW c 2000 s 0 []
+      runOpsW c rest r.1 ((s!"q{r.2.1}[" ++ joinWith "," (r.2.2.1.map showRsp) ++ "]" ++ (if r.2.2.2 then "!" else "")) :: acc)
     | _ => ["bad"]
 
 /-- optional `bisz= bn= bidx= boff=`: the bank address converter (absent on the lines of the main runner) -/
@@ -444,10 +705,31 @@ def handleConv (v : Conv) (rest : List String) : String :=
       | none => "panic"
       | some x => toHex x)
 
+/-- `configurationMustBeValid` (engine apart): numBanks, bankPipelineWidth, bankPipelineDepth, stageLatency,
+topPortBufferSize, postPipelineBufSize must all be positive -/
+def validCfg (banks width depth lat top post : Nat) : Bool :=
+  decide (0 < banks ∧ 0 < width ∧ 0 < depth ∧ 0 < lat ∧ 0 < top ∧ 0 < post)
+
+/-- `determineBankSelector`: `strings.ToLower(bankSelectorType)` must be "" or "interleaved" -/
+def selectorOk (t : String) : Bool := t.toLower == "" || t.toLower == "interleaved"
+
 def handle (line : String) : String :=
   match splitTrim line ";" with
   | [] => "bad"
   | first :: rest =>
+    if (words first).contains "valid" then
+      -- `Builder.configurationMustBeValid`: every one of the six sizes must be positive, else `Build` panics
+      match kvNat? (words first) "banks", kvNat? (words first) "w", kvNat? (words first) "d",
+            kvNat? (words first) "lat", kvNat? (words first) "top", kvNat? (words first) "post" with
+      | some a, some b, some d, some e, some f, some g => if validCfg a b d e f g then "ok" else "panic"
+      | _, _, _, _, _, _ => "bad"
+    else if (words first).contains "sel" then
+      -- `Builder.determineBankSelector`: case-insensitive "" / "interleaved", everything else panics
+      match words first with
+      | [_, _, t] => if selectorOk t then "ok" else "panic"
+      | [_, _] => "ok"
+      | _ => "bad"
+    else
     if (words first).contains "conv" then
       match parseConv (words first) with
       | some v => handleConv v rest
@@ -456,6 +738,11 @@ def handle (line : String) : String :=
     match parseCfg (words first) with
     | none => "bad"
     | some c => if c.banks = 0 ∨ c.width = 0 ∨ c.depth = 0 then "bad" else
-      joinWith " " (runOps c rest (init c) [])
+      let w := joinWith " " (runOpsW c rest (initW c) [])
+      -- one lane: the first model (on which the liveness theorems are stated) must give the same answer
+      if c.width = 1 then
+        let a := joinWith " " (runOps c rest (init c) [])
+        if a = w then w else "MODELS-DIFFER " ++ a ++ " | " ++ w
+      else w
 
 end C17
